@@ -132,6 +132,12 @@ func (db *DB) UpdateAccount(ctx context.Context, acc *acme.Account) error {
 		return err
 	}
 
+	// Deactivation is final. The account in acc was loaded when the request
+	// was authenticated, and another request may have deactivated it since.
+	if old.Status == acme.StatusDeactivated && acc.Status != acme.StatusDeactivated {
+		return acme.NewError(acme.ErrorUnauthorizedType, "account %s is deactivated", acc.ID)
+	}
+
 	nu := old.clone()
 	nu.Contact = acc.Contact
 	nu.Status = acc.Status
